@@ -59,9 +59,22 @@ impl Check for C15 {
         let count = m["instrumentedPropagation"].as_u64();
         let debug = &m["propagationDebug"];
         let (expected_count, expected_tags): (u64, BTreeMap<String, u64>) = if status == "modified" {
-            let Some(Ok(_)) = &a.out else { return Outcome::skip("output unparsable (C08)") };
+            let Some(Ok(out_parsed)) = &a.out else { return Outcome::skip("output unparsable (C08)") };
             match a.erased.as_ref().unwrap() {
-                Err(e) => return Outcome::skip(format!("round trip failed: {} ({})", e.sig, owner_of(&e.sig))),
+                Err(e) => {
+                    // the round trip failed (another property's business), but the count can still be compared with the
+                    // number of `_ddiast.<name>(..)` call sites that are literally in the output
+                    let n = count_hook_call_sites(&out_parsed.tree);
+                    let off = cfg.verbosity == "OFF";
+                    let want = if off { 0 } else { n };
+                    if count != Some(want) {
+                        return Outcome::fail(
+                            if count.unwrap_or(0) > want { "count-too-high" } else { "count-too-low" },
+                            format!("instrumentedPropagation is {:?} but the output contains {} hook call site(s) (verbosity {}; round trip failed: {})", count, n, cfg.verbosity, e.sig),
+                        );
+                    }
+                    return Outcome::skip(format!("round trip failed: {} ({})", e.sig, owner_of(&e.sig)));
+                }
                 Ok(er) => {
                     let mut tags = BTreeMap::new();
                     let mut n = 0;
@@ -909,6 +922,27 @@ pub fn eval_totality(case: &Value) -> Outcome {
     };
     let variant = if case["files"].as_array().map(|a| !a.is_empty()).unwrap_or(false) || src.contains("sourceMappingURL") { "map-ref" } else { "plain" };
     Outcome::pass(true, vec![class, format!("ref:{variant}"), format!("kind:{}", case["kind"])])
+}
+
+/// `_ddiast.<name>(..)` call expressions anywhere in a tree (the prologue only assigns to `_ddiast`, it never calls it)
+fn count_hook_call_sites(v: &Value) -> u64 {
+    match v {
+        Value::Object(m) => {
+            let mut n = 0;
+            if m.get("type").and_then(|t| t.as_str()) == Some("CallExpression") {
+                let callee = &m["callee"];
+                if callee["type"] == json!("MemberExpression") && callee["object"]["type"] == json!("Identifier") && callee["object"]["value"] == json!("_ddiast") {
+                    n += 1;
+                }
+            }
+            for (_, x) in m {
+                n += count_hook_call_sites(x);
+            }
+            n
+        }
+        Value::Array(a) => a.iter().map(count_hook_call_sites).sum(),
+        _ => 0,
+    }
 }
 
 // ------------------------------------------------------------------------------------------ C08
